@@ -66,6 +66,7 @@ CODES = {
     133: 'more rows than the limit',
     134: 'distances not non-decreasing',
     135: 'a reported distance is not the index distance to the stored vector',
+    138: 'the visited set of a graph search added a node twice (sweep of vamana.DistSet for largest node ids around every size class of its pooled bit sets; judged by the harness)',
     136: 'hybrid score is not -(weight x distance)',
     137: 'a score field was reported by a vector search',
     138: 'distance missing or NaN',
@@ -107,3 +108,4 @@ CFG['rule'] = CFG['rule'] + ' ' + 'Graph histories with a trainable quantiser (l
 
 CFG['rule'] = CFG['rule'] + ' ' + 'Delete batches of the graph profile remove, one time in three, everything but one or two random survivors in one batch.'
 CFG['rule'] = CFG['rule'] + ' ' + 'One history in ten has a hamming / jaccard graph index that also carries a binary quantiser block with a threshold and a metric of its own (not used for these metrics), with fractional vector components.'
+CFG['rule'] = CFG['rule'] + ' ' + 'Visited-set sweep (judged in Go, reported as note 950 / code 138): vamana.NewDistSet for largest node ids on, below and above each of the seven size classes and some others; a point added twice (alone and inside one Add call) must be kept once.'
